@@ -90,7 +90,8 @@ def run(prop, tier, replay, Ctx):
     with open(out, encoding="utf-8", errors="replace") as f:
         rep = json.load(f)
     expected = summary["cases"][tier] + 9 + summary["sequences"][tier] + summary["overlap"][tier]
-    if rep["coverage"]["evaluations"] != expected:
+    # (a run that the driver cut short after a crash / hang reports what it established; its coverage says so)
+    if rep["coverage"]["evaluations"] != expected and not rep["coverage"].get("aborted"):
         raise Ctx.Machinery("h_layout evaluated %s cases, the generator emitted %s" % (rep["coverage"]["evaluations"], expected))
     rep["coverage"]["generator"] = dict(summary, repo=repo)
     for v in rep.get("violation_records", []):
